@@ -42,10 +42,15 @@ class Ctx:
         self.remarks = []
         self.analysed_bodies = set()
         self.counters = {}
+        self._seen_keys = {}
 
     # -- recording --------------------------------------------------------
     def _rec(self, status, rule, fn, construct, what, site, detail):
         key = "%s|%s|%s" % (rule, fn, construct)
+        n = self._seen_keys.get(key, 0) + 1
+        self._seen_keys[key] = n
+        if n > 1:
+            key = "%s#%d" % (key, n)
         self.obligations.append({
             "status": status, "rule": rule, "function": fn, "construct": construct, "key": key,
             "what": what, "site": site, "detail": detail,
